@@ -474,6 +474,8 @@ func (g *c04Gen) one(it int) {
 			h, err := LeafHashForLeaf(&leaf)
 			if want := sha256.Sum256(append([]byte{0x00}, enc...)); err != nil || h != want {
 				g.out.Fail("leafhash "+showLeaf(&leaf), fmt.Sprintf("LeafHashForLeaf = %x, SHA-256(0x00‖leaf) = %x, err=%v", h, want, err))
+			} else if len(enc) < 600 {
+				g.out.T("LH "+hx(enc), hx(h[:])) // the model: SHA-256 (in Lean) of 0x00 ‖ leaf
 			}
 			if len(enc) < 3000 {
 				for _, m := range g.mutants(enc) {
@@ -1141,6 +1143,29 @@ func TestVerifC04(t *testing.T) {
 		}
 		if _, ok, _ := c04Marshal(ASN1Cert{Data: append(big, 0)}); ok {
 			out.Fail("invalid-accepted ASN1Cert len=16777216", "tls.Marshal accepted a certificate of 2^24 bytes")
+		}
+		// the same ceiling for PreCert.TBSCertificate, and on the decode side: ff ff ff ‖ 2^24−1 bytes decodes completely,
+		// one byte less is truncated
+		pre := PreCert{TBSCertificate: big}
+		if enc, ok, _ := c04Marshal(pre); !ok || len(enc) != 32+3+len(big) {
+			out.Fail("valid-rejected PreCert tbslen=16777215", "tls.Marshal refused a TBSCertificate of 2^24−1 bytes")
+		}
+		if _, ok, _ := c04Marshal(PreCert{TBSCertificate: append(big, 0)}); ok {
+			out.Fail("invalid-accepted PreCert tbslen=16777216", "tls.Marshal accepted a TBSCertificate of 2^24 bytes")
+		}
+		wire := append([]byte{0xff, 0xff, 0xff}, big...)
+		var back ASN1Cert
+		if rest, err := tls.Unmarshal(wire, &back); err != nil || len(rest) != 0 || len(back.Data) != len(big) {
+			out.Fail("valid-rejected-dec ASN1Cert len=16777215", fmt.Sprintf("tls.Unmarshal of ff ff ff ‖ 2^24−1 bytes: err=%v", err))
+		}
+		if _, err := tls.Unmarshal(wire[:len(wire)-1], &back); err == nil {
+			out.Fail("invalid-accepted-dec ASN1Cert len=16777214+prefix", "tls.Unmarshal accepted a truncated 2^24−1-byte certificate")
+		}
+		// a certificate_chain whose body is exactly 2^24−1 bytes: one certificate of 2^24−4 bytes
+		cw := append([]byte{0xff, 0xff, 0xff, 0xff, 0xff, 0xfc}, big[:len(big)-3]...)
+		var chain CertificateChain
+		if rest, err := tls.Unmarshal(cw, &chain); err != nil || len(rest) != 0 || len(chain.Entries) != 1 || len(chain.Entries[0].Data) != 1<<24-4 {
+			out.Fail("valid-rejected-dec CertChain body=16777215", fmt.Sprintf("tls.Unmarshal of a certificate_chain of 2^24−1 bytes: err=%v", err))
 		}
 	}
 }
